@@ -19,7 +19,12 @@ def run_suite(mon, mode):
                         "no:cacheprovider", "-p", "vpm.pytest_plugin",
                         "--deselect", "tests/test_jupiterMoons.py::"
                         "TestJupiterMoons::test_is_phenomena",
-                        os.path.join(env.REPO, "tests")],
+                        # the examples in the docstrings too (281 of them)
+                        "--doctest-modules", "--deselect",
+                        "pymeeus/JupiterMoons.py::pymeeus.JupiterMoons."
+                        "JupiterMoons.is_phenomena",
+                        os.path.join(env.REPO, "tests"),
+                        os.path.join(env.REPO, "pymeeus")],
                        cwd=env.REPO, env=e, capture_output=True, text=True,
                        timeout=1800)
     if not os.path.exists(out):
